@@ -61,3 +61,6 @@ Theorem C12_kernels_value_independent : forall s kx ky,
   Gen.Codegen.term_positive s = Z.ltb 0 s /\ Gen.Codegen.keyout_default kx ky = Z.lxor kx ky.
 Proof. intros. split; reflexivity. Qed.
 Print Assumptions C12_kernels_value_independent.
+
+(* the polynomial class the symbolic generators run on: its translated kernels and pinned methods (see Props/C17.v) *)
+From KV Require Bridge.Poly Bridge.Pins_C17.
